@@ -1399,6 +1399,8 @@ def _run(ctx):
         ctx.extra['props_compiled'] = compiled
     from .. import bivlifegen
     bivlifegen.hook(ctx)     # Gen_bivlife.v + Props/C14_biv.v (C14_bridge_*): never stops the rest of the check
+    from .. import vineserialgen
+    vineserialgen.hook(ctx)  # Gen_vineserial.v + Props/C14_vine.v (vine serialisation generated from the AST): never stops the rest
     E = Evaluator()
     pend = Pending(ctx, E)
     viol = Viols(ctx)
